@@ -21,6 +21,20 @@ from ..emitrules import get_paths
 from .c29 import shared_state_rule
 
 
+def derived_context_rule(ctx: Ctx, rid: str) -> None:
+    """Context.call hands a *derived* context to pass_context callables (new-style gettext,
+    context filters) and scoped blocks: it must carry the render's live eval context - a fresh
+    one falls back to the environment's default autoescape inside `{% autoescape %}`."""
+    ctx.use("runtime")
+    ctx.rule(rid, "a derived context shares the live eval context of its parent (Context.derived assigns context.eval_ctx = self.eval_ctx) and gets copies of the block stacks")
+    dv = ctx.repo.func("runtime:Context.derived")
+    asg = [a for a in ast.walk(dv.node) if isinstance(a, ast.Assign) and ast.unparse(a.targets[0]) == "context.eval_ctx"]
+    ok = len(asg) == 1 and ast.unparse(asg[0].value) == "self.eval_ctx" and not astq.guard_texts(dv.node, asg[0])
+    ctx.check(ok, "derived:eval_ctx", "runtime:Context.derived", "derived context does not share self.eval_ctx",
+              "Context.derived must assign `context.eval_ctx = self.eval_ctx` unconditionally: otherwise a pass_context callable reached through Context.call (new-style gettext inside a loop / block with a `set`) or a scoped block sees the environment's default autoescape instead of the one in force, and marks markup safe / escapes values wrongly", dv.loc())
+    ctx.check("context.blocks.update(((k, list(v)) for k, v in self.blocks.items()))" in ast.unparse(dv.node), "derived:blocks", "runtime:Context.derived", "block stacks copied", "a derived context must copy the block stacks", dv.loc())
+
+
 def check(ctx: Ctx) -> str:
     ctx.use("environment", "runtime", "compiler", "filters", "async_utils", "sandbox")
     repo = ctx.repo
